@@ -11,6 +11,22 @@ package main
 //                  single unexported f.<callee>(…) that stmt 2 calls (Read→readAt, ReadAt→readAt,
 //                  ReadFromWithConcurrency→readFromWithConcurrency)
 //   a method without any f.mu call must not touch f.handle, f.offset or f.c (Name)
+//
+// Offset part of C12, "Seek computes … end-relative positions … and rejects a negative result without moving":
+// where the size of an end-relative Seek comes from. An os.File asks the descriptor; the only request of the
+// protocol that asks the open file is FSTAT on the handle (`f.c.fstat(f.handle)`); `f.c.stat(f.path)` asks whatever
+// the NAME shows now. Shapes recognised in File.Seek (anything else is a failure):
+//   switch whence { … case io.SeekEnd:  X, err := f.<m>()          (<m> an unexported method of *File without arguments)
+//                                       if err != nil { return f.offset, err }
+//                                       offset += X.Size()  |  offset += int64(X.Size)   … }
+//   if offset < 0 { return f.offset, os.ErrInvalid }   before   f.offset = offset   (both top-level statements of Seek)
+// Emitted: every `f.c.<call>(…)` reachable from Seek through unexported File methods, as "function: call"
+// (seekSends); seekEndUsesHandleStat = the calls reachable from the io.SeekEnd clause are exactly
+// [f.c.fstat(f.handle)] and nothing else in Seek sends; seekRejectsNegativeFirst.
+// WriteTo's pre-sizing is DIFFERENT and documented as such: `if f.c.useFstat { fileStat, err = f.c.fstat(f.handle) }
+// else { fileStat, err = f.c.stat(f.path) }` — the size is used for the worker-pool guess and the
+// sequential/concurrent choice only (writeToPresize, writeToSizeOnlyGuess: no statement assigning f.offset
+// mentions fileStat/fileSize/concurrency).
 
 import (
 	"fmt"
@@ -222,5 +238,253 @@ func extractFileMethods(x *extractor) {
 	}
 	u.pf("-- source: client.go, the exported methods of *File\n")
 	u.pf("def fileMethods : List FileMethodFact := [\n%s\n]\n", rpJoinRows(rows))
+	fmSeekFacts(u, pi)
 	u.pf("\nend Sftp.G\n")
+}
+
+// fmSends: every call `f.c.<name>(…)` in n, as written.
+func fmSends(pi *pkgInfo, n ast.Node) []string {
+	var out []string
+	ast.Inspect(n, func(m ast.Node) bool {
+		c, ok := m.(*ast.CallExpr)
+		if !ok {
+			return true
+		}
+		if se, ok := c.Fun.(*ast.SelectorExpr); ok && exprString(se.X) == "f.c" {
+			out = append(out, pi.nodeText(c))
+		}
+		return true
+	})
+	return out
+}
+
+// fmSendsReach: the sends in n and in every unexported File method reachable from n, as "function: call"
+// (those of n itself under the name `in`).
+func fmSendsReach(pi *pkgInfo, in string, n ast.Node) []string {
+	var out []string
+	for _, s := range fmSends(pi, n) {
+		out = append(out, in+": "+s)
+	}
+	seen := map[string]bool{}
+	queue := fmCallees(pi, n)
+	for i := 0; i < len(queue); i++ {
+		name := queue[i]
+		if seen[name] {
+			continue
+		}
+		seen[name] = true
+		fd := pi.funcDecl("File." + name)
+		if fd == nil || fd.Body == nil {
+			continue
+		}
+		for _, s := range fmSends(pi, fd.Body) {
+			out = append(out, name+": "+s)
+		}
+		queue = append(queue, fmCallees(pi, fd.Body)...)
+	}
+	return out
+}
+
+// fmMentions: does any identifier of names occur in n?
+func fmMentions(n ast.Node, names ...string) bool {
+	hit := false
+	ast.Inspect(n, func(m ast.Node) bool {
+		if id, ok := m.(*ast.Ident); ok {
+			for _, w := range names {
+				if id.Name == w {
+					hit = true
+				}
+			}
+		}
+		return !hit
+	})
+	return hit
+}
+
+func fmSeekFacts(u *unit, pi *pkgInfo) {
+	usesHandle, rejectsFirst := false, false
+	var sends []string
+	endSource := ""
+	where := "client.go"
+	if fd := pi.funcDecl("File.Seek"); fd == nil || fd.Body == nil {
+		u.fail("File.Seek not found")
+	} else {
+		where = pi.pos(fd)
+		sends = fmSendsReach(pi, "Seek", fd.Body)
+		// f must not leave Seek (or what it reaches) other than through f.<m>(), f.c.<call>() and f.mu: a helper that is
+		// handed f, f.path or f.handle could send on its own
+		for _, r := range fmReach(pi, "Seek") {
+			rfd := pi.funcDecl("File." + r)
+			if rfd == nil || rfd.Body == nil {
+				continue
+			}
+			ast.Inspect(rfd.Body, func(m ast.Node) bool {
+				c, ok := m.(*ast.CallExpr)
+				if !ok {
+					return true
+				}
+				if se, ok := c.Fun.(*ast.SelectorExpr); ok {
+					if x := exprString(se.X); x == "f" || x == "f.c" || x == "f.mu" {
+						return true
+					}
+				}
+				for _, a := range c.Args {
+					if fmMentions(a, "f") {
+						if t := pi.nodeText(c); t != "path.Base(f.path)" && t != "fileInfoFromStat(fs, path.Base(f.path))" {
+							u.fail("File.%s (reached from Seek): f is handed to %s (%s)", r, t, pi.pos(c))
+						}
+					}
+				}
+				return true
+			})
+		}
+		// the switch over whence and its io.SeekEnd clause
+		var sw *ast.SwitchStmt
+		iNeg, iAssign := -1, -1
+		for i, s := range fd.Body.List {
+			switch t := s.(type) {
+			case *ast.SwitchStmt:
+				if t.Init == nil && t.Tag != nil && exprString(t.Tag) == "whence" {
+					if sw != nil {
+						u.fail("File.Seek: more than one `switch whence` (%s)", pi.pos(t))
+					}
+					sw = t
+				}
+			case *ast.IfStmt:
+				if pi.nodeText(t) == "if offset < 0 { return f.offset, os.ErrInvalid }" {
+					iNeg = i
+				}
+			case *ast.AssignStmt:
+				if pi.nodeText(t) == "f.offset = offset" {
+					iAssign = i
+				}
+			}
+		}
+		// the assignment after the rejection is the only one (the method table lists every assignment)
+		nAssign := 0
+		ast.Inspect(fd.Body, func(m ast.Node) bool {
+			if a, ok := m.(*ast.AssignStmt); ok {
+				for _, l := range a.Lhs {
+					if exprString(l) == "f.offset" {
+						nAssign++
+					}
+				}
+			}
+			return true
+		})
+		rejectsFirst = iNeg >= 0 && iAssign > iNeg && nAssign == 1
+		if !rejectsFirst {
+			u.fail("File.Seek: `if offset < 0 { return f.offset, os.ErrInvalid }` before the single `f.offset = offset` not found (%s)", where)
+		}
+		if sw == nil {
+			u.fail("File.Seek: `switch whence` not found (%s)", where)
+		} else {
+			var end *ast.CaseClause
+			var elsewhere []string
+			for _, c := range sw.Body.List {
+				cc := c.(*ast.CaseClause)
+				isEnd := false
+				for _, e := range cc.List {
+					if exprString(e) == "io.SeekEnd" {
+						isEnd = true
+					}
+				}
+				if isEnd {
+					if end != nil || len(cc.List) != 1 {
+						u.fail("File.Seek: io.SeekEnd shares its case or occurs twice (%s)", pi.pos(cc))
+					}
+					end = cc
+					continue
+				}
+				for _, st := range cc.Body {
+					elsewhere = append(elsewhere, fmSendsReach(pi, "Seek", st)...)
+				}
+			}
+			if end == nil {
+				u.fail("File.Seek: no `case io.SeekEnd` (%s)", pi.pos(sw))
+			} else {
+				shape := false
+				if len(end.Body) == 3 {
+					if as, ok := end.Body[0].(*ast.AssignStmt); ok && as.Tok.String() == ":=" && len(as.Lhs) == 2 && len(as.Rhs) == 1 && exprString(as.Lhs[1]) == "err" {
+						x := exprString(as.Lhs[0])
+						if c, ok := as.Rhs[0].(*ast.CallExpr); ok && len(c.Args) == 0 {
+							if se, ok := c.Fun.(*ast.SelectorExpr); ok && exprString(se.X) == "f" && !ast.IsExported(se.Sel.Name) && pi.funcDecl("File."+se.Sel.Name) != nil {
+								add := pi.nodeText(end.Body[2])
+								shape = pi.nodeText(end.Body[1]) == "if err != nil { return f.offset, err }" &&
+									(add == "offset += "+x+".Size()" || add == "offset += int64("+x+".Size)")
+								endSource = "f." + se.Sel.Name + "()"
+							}
+						}
+					}
+				}
+				if !shape {
+					u.fail("File.Seek: the io.SeekEnd clause is not `X, err := f.<m>(); if err != nil { return f.offset, err }; offset += X.Size()` (%s)", pi.pos(end))
+				}
+				var endSends []string
+				for _, st := range end.Body {
+					endSends = append(endSends, fmSendsReach(pi, "Seek", st)...)
+				}
+				onlyHandle := len(endSends) == 1 && strings.HasSuffix(endSends[0], ": f.c.fstat(f.handle)")
+				usesHandle = shape && onlyHandle && len(elsewhere) == 0 && len(sends) == 1
+			}
+		}
+	}
+	// WriteTo's pre-sizing
+	presize, onlyGuess := "unrecognised", false
+	if fd := pi.funcDecl("File.WriteTo"); fd == nil || fd.Body == nil {
+		u.fail("File.WriteTo not found")
+	} else {
+		for _, s := range fd.Body.List {
+			is, ok := s.(*ast.IfStmt)
+			if !ok || !fmMentions(is, "fileStat") {
+				continue
+			}
+			switch pi.nodeText(is) {
+			case "if f.c.useFstat { fileStat, err = f.c.fstat(f.handle) } else { fileStat, err = f.c.stat(f.path) }":
+				presize = "useFstat: f.c.fstat(f.handle); else: f.c.stat(f.path)"
+			case "if fileSize <= uint64(f.c.maxPacket) || !isRegular(fileStat.Mode) { return f.writeToSequential(w) }":
+			default:
+				u.fail("File.WriteTo: unexpected statement using fileStat at %s", pi.pos(is))
+			}
+		}
+		if presize == "unrecognised" {
+			// the other shape this unit knows: always the handle
+			if strings.Contains(pi.bodyText(fd), "fileStat, err := f.c.fstat(f.handle)") && !strings.Contains(pi.bodyText(fd), "f.c.stat(") {
+				presize = "f.c.fstat(f.handle)"
+			} else {
+				u.fail("File.WriteTo: the pre-sizing STAT/FSTAT choice was not recognised (%s)", pi.pos(fd))
+			}
+		}
+		onlyGuess = true
+		for _, r := range fmReach(pi, "WriteTo") {
+			rfd := pi.funcDecl("File." + r)
+			if rfd == nil || rfd.Body == nil {
+				continue
+			}
+			ast.Inspect(rfd.Body, func(m ast.Node) bool {
+				if a, ok := m.(*ast.AssignStmt); ok {
+					for _, l := range a.Lhs {
+						if exprString(l) == "f.offset" && fmMentions(a, "fileStat", "fileSize", "concurrency", "concurrency64") {
+							onlyGuess = false
+						}
+					}
+				}
+				return true
+			})
+		}
+		if !onlyGuess {
+			u.fail("File.WriteTo: an assignment to f.offset depends on the pre-sized file size (%s)", pi.pos(fd))
+		}
+	}
+	u.pf("\n-- source: %s File.Seek (the io.SeekEnd clause takes its size from %s) and what that reaches\n", where, endSource)
+	u.pf("/-- every `f.c.<call>(…)` reachable from Seek through unexported File methods, as \"function: call\" -/\n")
+	u.pf("def seekSends : List String := %s\n", leanStrList(sends))
+	u.pf("/-- the io.SeekEnd clause is `X, err := f.<m>(); if err != nil { return f.offset, err }; offset += X.Size()`, all it reaches\n    is `f.c.fstat(f.handle)` (FSTAT on the open handle, never STAT of the path), and nothing else in Seek sends -/\n")
+	u.pf("def seekEndUsesHandleStat : Bool := %s\n", leanBool(usesHandle))
+	u.pf("/-- `if offset < 0 { return f.offset, os.ErrInvalid }` precedes the single `f.offset = offset` -/\n")
+	u.pf("def seekRejectsNegativeFirst : Bool := %s\n", leanBool(rejectsFirst))
+	u.pf("/-- where WriteTo's pre-sizing asks for the file size (NOT the handle unless UseFstat(true): documented difference) -/\n")
+	u.pf("def writeToPresize : String := %s\n", leanStr(presize))
+	u.pf("/-- no assignment to f.offset reachable from WriteTo mentions the pre-sized size or the concurrency derived from it -/\n")
+	u.pf("def writeToSizeOnlyGuess : Bool := %s\n", leanBool(onlyGuess))
 }
